@@ -1,7 +1,5 @@
 (* Definitions used only to STATE the file-level properties (C01, C02, C05, C06, C08, C11, C12, C13, C18). *)
 From Wencry Require Import Bytes AesSpec AesModel ModesSpec ModesModel HashSpec HashModel FileModel FileSpec.
-(* the orchestration code the file-level model was written from is unchanged (regenerated from /repo on every run) *)
-From Wencry Require Export FileGlueText.
 Local Open Scope N_scope.
 
 (* well-formed parameters of an encryption *)
